@@ -122,6 +122,11 @@ func (pb *predBuilder) valueFormula(v ssa.Value, depth int) formula {
 	if depth > 20 {
 		return fAtom{pb.key(v)}
 	}
+	if pb.name != nil {
+		if k := pb.name(v); k != "" {
+			return fAtom{k} // the rule names this value: an atom, whatever its definition
+		}
+	}
 	switch x := v.(type) {
 	case *ssa.Const:
 		if x.Value != nil && x.Value.Kind() == constant.Bool {
@@ -174,7 +179,13 @@ func (pb *predBuilder) valueFormula(v ssa.Value, depth int) formula {
 		// (edge taken, relative to the phi block's immediate dominator) && value
 		blk := x.Block()
 		id := blk.Idom()
-		if id != nil {
+		loopHeader := false
+		for _, p := range blk.Preds {
+			if blk.Dominates(p) {
+				loopHeader = true // loop-carried variable: opaque
+			}
+		}
+		if id != nil && !loopHeader {
 			var f formula = fConst{false}
 			for k, e := range x.Edges {
 				p := blk.Preds[k]
